@@ -350,11 +350,22 @@ def run(check, tier, seed, replay=None):
     pid = check.pid
 
     # 1. translator + build + audit
-    regenerated = [p for p in check.extract() if git_dirty(p)]
+    # A translator that can no longer read the source under test (a function it reads was renamed, split or changed
+    # shape) is a BROKEN TIE, not a crash of the machinery: the tables of the last successful translation stay in place,
+    # the obligation is recorded as broken, and the run goes on to the failing-input search (verdict below).
+    translator_broken = None
+    try:
+        regenerated = [p for p in check.extract() if git_dirty(p)]
+    except Exception as ex:
+        regenerated = []
+        translator_broken = f"translator could not read the source under test: {type(ex).__name__}: {str(ex)[:300]}"
     if check.props_mod:
         b = build_and_audit(check.props_mod, check.exe)
     else:
         b = dict(ok=True, obligations=0, discharged=0, broken=[], log="", axioms={})
+    if translator_broken:
+        b["ok"] = False
+        b["broken"].append(translator_broken)
     if tier == "thorough" and b["ok"] and check.props_mod:
         rc, out = lake(["env", "leanchecker"] + sorted(module_closure(check.props_mod)), timeout=3000)
         b["leanchecker"] = "ok" if rc == 0 else out[-800:]
